@@ -340,6 +340,16 @@ def run_bilateral(ctx, report, case, compare_model=True):
         return {"interior": 0}
     valid_vals = before["disparity_map"][(before["validity_mask"] & invalid_mask()) == 0]
     spatial, diffs, rngw = fl.gaussian_tables(ss, sc, win, valid_vals)
+    # the two factors are Gaussians centred on the pixel (sampled in Python: exp is outside Lean)
+    report.hit("is_weighted_mean")
+    aa = np.arange(win)[:, None] - win // 2
+    bb = np.arange(win)[None, :] - win // 2
+    want_sp = np.exp(-(aa**2 + bb**2) / (2 * ss * ss)) / (ss * np.sqrt(2 * np.pi))
+    want_rg = np.exp(-((diffs / sc) ** 2) / 2) / (sc * np.sqrt(2 * np.pi))
+    if not np.allclose(spatial, want_sp, rtol=1e-9, atol=1e-300) or not np.allclose(rngw, want_rg, rtol=1e-5, atol=1e-30):
+        report.fail("is_weighted_mean", "bilateral_kernel_not_gaussian", case,
+                    {"spatial": spatial.tolist()[:3], "expected": want_sp.tolist()[:3]},
+                    "gauss_spatial_kernel / normalized_gaussian are not the Gaussians of the distance to the pixel / of the disparity difference")
     payload = {
         "ny": ny, "nx": nx, "sigma_space": enc_f(ss), "invalid_mask": invalid_mask(),
         "spatial": enc_arr(spatial), "range": [[enc_f(d), enc_f(w)] for d, w in zip(diffs.tolist(), rngw.tolist())],
